@@ -154,6 +154,10 @@ function runJob (job) {
           const prep = pkg.getPrepareStackTrace((err, cs) => cs.map((c) => [c.getFileName(), c.getLineNumber(), c.getColumnNumber()]))
           const out = prep(new Error('probe'), sites)
           ev.results = step.positions.map(([l, c], i) => [l, c, String(out[i][0]), Number(out[i][1]), Number(out[i][2])])
+          // "never throw": the preparation is also handed errors whose stack is not a string
+          for (const weird of [{ stack: 42 }, { stack: undefined }, Object.create(null), { get stack () { return { toString: null } } }]) {
+            pkg.getPrepareStackTrace(undefined)(weird, sites.slice(0, 2))
+          }
         } finally {
           Error.prepareStackTrace = saved
         }
